@@ -34,7 +34,9 @@ def emit(sc):
     if sc.get("emit_tape"):
         lines.append("emit_tape")
     if sc.get("instr"):
-        lines.append("instr %d" % sc["instr"] + (" target=%d" % sc["instr_target"] if sc.get("instr_target") else "") + (" cap=%d" % sc["instr_cap"] if sc.get("instr_cap") else ""))
+        lines.append("instr %d" % sc["instr"] + (" target=%d" % sc["instr_target"] if sc.get("instr_target") else "") + (" cap=%d" % sc["instr_cap"] if sc.get("instr_cap") else "")
+                     + (" profile=1" if sc.get("instr_profile") else "") + (" site=%s" % sc["instr_site"] if sc.get("instr_site") else "")
+                     + (" skip=%d" % sc["instr_skip"] if sc.get("instr_skip") else ""))
     if sc.get("maxsteps"):
         lines.append("maxsteps %d" % sc["maxsteps"])
     return "\n".join(lines) + "\n"
@@ -133,7 +135,7 @@ class History:
                 if e["op"] in ("try", "block"):
                     key = (e["th"], e["v"])
                     if e["phase"] == "inv":
-                        open_send[key] = dict(th=e["th"], op=e["op"], push=e["push"], v=e["v"], inv=idx, ret=None, res=None, wall_inv=e["wall"])
+                        open_send[key] = dict(th=e["th"], op=e["op"], push=e["push"], v=e["v"], inv=idx, ret=None, res=None, wall_inv=e["wall"], eng=e.get("eng"))
                         self.sends.append(open_send[key])
                     else:
                         s = open_send.get(key)
@@ -187,6 +189,8 @@ def check_push(h):
         dl = [d for d in h.dlv if d["id"] == p["id"]]
         accepted = {s["v"]: s for s in sends if s["res"] is True}
         stats["accepted"] += len(accepted)
+        # (the engine thread was blocked in a timed condition-variable wait when this accepted send was invoked: the wake-up path)
+        stats["probe_push_while_engine_in_timed_wait"] += sum(1 for s in accepted.values() if s.get("eng") == 3)
         stats["refused"] += sum(1 for s in sends if s["res"] is False)
         flat = [(v, d) for d in dl for v in d["vals"]]
         stats["delivered"] += len(flat)
@@ -502,6 +506,14 @@ def normalise(sc):
     if q.get("faults", {}).get("starve"):
         q["faults"]["starve"] = tuple(q["faults"]["starve"])
     return q
+
+
+def profiled_sites(events):
+    """site sweep: the candidate call sites listed by a profile run: [(hex address, thread id, entries, symbol+offset)]"""
+    for e in events:
+        if e["k"] == "sites":
+            return [tuple(x) for x in e["v"]]
+    return None
 
 
 def recorded_tape(events):
